@@ -4,6 +4,7 @@ import (
 	"encoding/json"
 	"flag"
 	"fmt"
+	"go/constant"
 	"os"
 	"path/filepath"
 	"regexp"
@@ -130,7 +131,7 @@ func main() {
 	}
 	timeout := *flagTimeout
 	if timeout == 0 {
-		timeout = 10
+		timeout = 20
 		if tier == "thorough" {
 			timeout = 60
 		}
@@ -278,11 +279,34 @@ func main() {
 		}
 	}
 
+	for _, d := range C.Decls {
+		if d.Kind != "structural" || *flagFn != "" || (prop != "" && !hasProp(d.Props, prop)) {
+			continue
+		}
+		ok, why := eng.structural(d)
+		goal := "true"
+		if !ok {
+			goal = "false"
+			fmt.Fprintf(os.Stderr, "govc: structural obligation %s fails: %s\n", d.Name, why)
+		}
+		queries = append(queries, &Query{Name: "structural:" + d.Name, Props: d.Props, Kind: "structural", Goal: goal})
+	}
+
 	workDir := *flagWork
 	if workDir == "" {
 		workDir = filepath.Join(*flagVerif, "work", orAll(prop))
 	}
 	os.RemoveAll(workDir) //nolint:errcheck
+	// obligations recorded as known findings are expected not to discharge: give them a short time limit
+	for _, f := range loadFindings(filepath.Join(*flagVerif, "known_findings.txt")) {
+		if f.Kind == "finding" {
+			for _, q := range queries {
+				if q.Name == f.Obligation {
+					q.short = true
+				}
+			}
+		}
+	}
 	dischargeAll(queries, C, workDir, timeout, tier == "thorough", 16)
 
 	// fold into obligations
@@ -392,4 +416,46 @@ func fnMatch(name string) bool {
 		}
 	}
 	return false
+}
+
+// structural checks facts about the program text that contracts rely on.
+func (e *Engine) structural(d *Decl) (bool, string) {
+	kind := d.SX.List[1].Atom
+	switch kind {
+	case "regex-literal":
+		// the package-level variable is initialised with regexp.MustCompile(<exactly this literal>)
+		gname, lit := d.SX.List[2].Atom, d.SX.List[3].Atom
+		for _, fn := range e.fns {
+			if fn.Synthetic == "" || fn.Name() != "init" {
+				continue
+			}
+			for _, b := range fn.Blocks {
+				for _, in := range b.Instrs {
+					st, ok := in.(*ssa.Store)
+					if !ok {
+						continue
+					}
+					g, ok := st.Addr.(*ssa.Global)
+					if !ok || normName(g.String()) != gname {
+						continue
+					}
+					call, ok := st.Val.(*ssa.Call)
+					if !ok || e.calleeName(&call.Call) != "regexp.MustCompile" {
+						return false, "initialised by something other than regexp.MustCompile"
+					}
+					c, ok := call.Call.Args[0].(*ssa.Const)
+					if !ok || c.Value == nil {
+						return false, "pattern is not a constant"
+					}
+					got := constant.StringVal(c.Value)
+					if got != lit {
+						return false, fmt.Sprintf("pattern is %q, contracts assume %q", got, lit)
+					}
+					return true, ""
+				}
+			}
+		}
+		return false, "no initialisation of " + gname + " found"
+	}
+	return false, "unknown structural check " + kind
 }
